@@ -73,6 +73,7 @@ func (w *worker) close() {
 }
 
 type prog struct {
+	reportedInternal, reportedHeadPart bool // once per program
 	c   *ev.Ctx
 	w   *worker
 	id  string
